@@ -379,6 +379,24 @@ fn length_edit_inputs<F: GenFam>(rng: &mut Rng, npackets: usize, f: &mut dyn FnM
     }
 }
 
+fn catalogue_inputs<F: GenFam>(rng: &mut Rng, npackets: usize, f: &mut dyn FnMut(&[u8])) {
+    let mut b = Budget { big: 0, huge: 0 };
+    let types = F::types();
+    for i in 0..npackets {
+        let p = F::gen(rng, &mut b, types[i % types.len()]);
+        if let Some(e) = enc::<F>(&p).1 {
+            if e.len() > 400 {
+                continue;
+            }
+            if let Some(fr) = crate::tokens::tokenize(F::NAME, &e) {
+                for m in crate::tokens::catalogue(&fr, rng) {
+                    f(&m.bytes);
+                }
+            }
+        }
+    }
+}
+
 pub fn record_dec3(out: &mut Out, tier: &str, seed: u64) {
     let n = if tier == "thorough" { 150000 } else { 5000 };
     let mut rng = Rng::new(seed ^ 0xC06);
@@ -386,6 +404,10 @@ pub fn record_dec3(out: &mut Out, tier: &str, seed: u64) {
     let npk = if tier == "thorough" { 1500 } else { 45 };
     length_edit_inputs::<V3>(&mut rng, npk, &mut |v| dec3_event::<V3>(out, v));
     length_edit_inputs::<V5>(&mut rng, 2 * npk, &mut |v| dec3_event::<V5>(out, v));
+    // every catalogue malformation (DESIGN.md Appendix B) of a few packets of every type: localised, structure-aware
+    // corruptions at every site
+    catalogue_inputs::<V3>(&mut rng, npk, &mut |v| dec3_event::<V3>(out, v));
+    catalogue_inputs::<V5>(&mut rng, 2 * npk, &mut |v| dec3_event::<V5>(out, v));
     for i in 0..n {
         let v = input_for::<V3>(&mut rng, &mut b, i);
         dec3_event::<V3>(out, &v);
